@@ -449,7 +449,7 @@ CATALOGUE['C01'] += [
 CATALOGUE['C02'] += [
   (F, 'R-DELROWCOL', _IO, "            if isarray['ROW'] and isarray['COL']:", "            if np.sum(list(isarray.values())) > 1:"),
   (S, None, _IO, "            if isarray['ROW'] and isarray['COL']:", "            if isarray['COL'] and isarray['ROW']:"),
-  (F, 'R-SLICEDEF', _FN, "    if len(slicedef) == 2:\n        slicedef.append(slicedef[-1] + 1)\n    slicedef = (slicedef + [None, ])[:4]\n    dimkey, dmin, dmax, dstride = slicedef", "    dimkey, dmin, dmax, dstride = (slicedef + [None, None])[:4]\n    if dmax is None:\n        dmax = dmin + 1"),
+  (F, 'R-SLICEDEF', _FN, "    if len(slicedef) == 2:\n        # a single index; the stop after -1 is the end, not 0\n        slicedef.append(slicedef[-1] + 1 or None)\n    slicedef = (slicedef + [None, ])[:4]\n    dimkey, dmin, dmax, dstride = slicedef", "    dimkey, dmin, dmax, dstride = (slicedef + [None, None])[:4]\n    if dmax is None:\n        dmax = dmin + 1"),
 ]
 CATALOGUE['C03'] += [
   (F, 'R-UNTOUCHED', _IO, "                [int(t.strftime('%H%M%S')) for t in newtimes])[:, None]\n        return outf", "                [int(t.strftime('%H%M%S')) for t in newtimes])[:, None]\n        outf.updatetflag(overwrite=True)\n        return outf"),
@@ -624,6 +624,37 @@ CATALOGUE['C19'] += [
 CATALOGUE['C01'] += [
   (S, None, 'core/_files.py', "        if isinstance(self, netcdf):\n            if unlimited:\n                ndv = self.createDimension(key, None)\n            else:\n                ndv = self.createDimension(key, dimlen)\n        else:\n            ndv = self.createDimension(key, dimlen)\n            ndv.setunlimited(unlimited)", "        ondisk = isinstance(self, netcdf)\n        ndv = self.createDimension(\n            key, None if (ondisk and unlimited) else dimlen)\n        if not ondisk:\n            ndv.setunlimited(unlimited)"),
   (F, 'R-UNLIM', 'core/_files.py', "        if isinstance(self, netcdf):\n            if unlimited:\n                ndv = self.createDimension(key, None)\n            else:\n                ndv = self.createDimension(key, dimlen)\n        else:\n            ndv = self.createDimension(key, dimlen)\n            ndv.setunlimited(unlimited)", "        ondisk = isinstance(self, netcdf)\n        ndv = self.createDimension(\n            key, None if unlimited else dimlen)\n        if not ondisk:\n            ndv.setunlimited(unlimited)"),
+]
+
+# ---- second group of defects repaired after the fifth refactoring wave
+_URD = 'camxfiles/uamiv/Read.py'
+_UMM = 'camxfiles/uamiv/Memmap.py'
+_BP = 'geoschemfiles/_bpch.py'
+CATALOGUE['C13'] += [
+  (F, 'R-SQUEEZEIDX', _URD, "                return self.getArray(nspec=spcnames.index(\n                    spc)).squeeze().reshape(ntimes, nlays, nrows, ncols)\n\n            def decor(spc):\n                return dict(units=units, var_desc=spc,\n", "                return self.getArray(\n                    nspec=spcnames.index(spc)).squeeze()[:, newaxis, :, :]\n\n            def decor(spc):\n                return dict(units=units, var_desc=spc,\n"),
+  (S, None, _URD, "                return self.getArray(nspec=spcnames.index(\n                    spc)).squeeze().reshape(ntimes, nlays, nrows, ncols)\n\n            def decor(spc):\n                return dict(units=units, var_desc=spc,\n", "                vals = self.getArray(nspec=spcnames.index(spc))\n                return vals.reshape(ntimes, nlays, nrows, ncols)\n\n            def decor(spc):\n                return dict(units=units, var_desc=spc,\n"),
+]
+CATALOGUE['C12'] += [
+  (F, 'R-STEPDATE', _UMM, "        self.TSTEP = (nsecs // 3600 * 10000 + nsecs % 3600 // 60 * 100 +\n                      nsecs % 60)", "        self.TSTEP = etflagv[0, 0, 1] - tflagv[0, 0, 1]"),
+  (F, 'R-STEPDATE', _UMM, "        self.TSTEP = (nsecs // 3600 * 10000 + nsecs % 3600 // 60 * 100 +\n                      nsecs % 60)", "        self.TSTEP = int(etflagv[0, 0, 1]) - int(tflagv[0, 0, 1])"),
+]
+CATALOGUE['C18'] += [
+  (F, 'R-TABLESTRIP', _BP, "diaginfo.read().strip('\\n').split('\\n')", "diaginfo.read().strip().split('\\n')"),
+  (F, 'R-TABLESTRIP', _BP, "diaginfo.read().strip('\\n').split('\\n')", "diaginfo.read().lstrip().split('\\n')"),
+  (S, None, _BP, "diaginfo.read().strip('\\n').split('\\n')", "diaginfo.read().rstrip('\\n').split('\\n')"),
+  (F, 'R-REPEATEND', _BP, "                if (header[7], header[8]) != (first_header[7], first_header[8]):\n", "                if offset == file_size:\n"),
+  (S, None, _BP, "                if (header[7], header[8]) != (first_header[7], first_header[8]):\n", "                if not (header[7], header[8]) == (first_header[7], first_header[8]):\n"),
+]
+CATALOGUE['C16'] += [
+  (F, 'R-TIMEDIR', 'core/_files.py', "            out = np.interp(x, ixp, iidx)\n", "            out = np.interp(x, xp, idx)\n"),
+  (F, 'R-TIMEDIR', 'core/_files.py', "            ixp, iidx = xp[::-1], idx[::-1]\n", "            ixp, iidx = xp[::-1], idx\n"),
+  (F, 'R-TIMEDIR', 'core/_files.py', "        if xp.size > 1 and xp[0] > xp[-1]:\n            ixp, iidx = xp[::-1], idx[::-1]\n        else:\n            ixp, iidx = xp, idx\n", "        ixp, iidx = xp, idx\n"),
+  (S, None, 'core/_files.py', "        if xp.size > 1 and xp[0] > xp[-1]:\n", "        if xp.size > 1 and xp[-1] < xp[0]:\n"),
+]
+
+CATALOGUE['C02'] += [
+  (F, 'R-STOPPLUS1', 'core/_functions.py', "        slicedef.append(slicedef[-1] + 1 or None)", "        slicedef.append(slicedef[-1] + 1)"),
+  (S, None, 'core/_functions.py', "        slicedef.append(slicedef[-1] + 1 or None)", "        slicedef.append((slicedef[-1] + 1) or None)"),
 ]
 
 SEED_VARIANTS = {
